@@ -35,6 +35,7 @@ type sub struct {
 type world struct {
 	w    *fx.World
 	c    *fx.Conn
+	c2   *fx.Conn // a second connection (another client of the same objects)
 	root probe.ProbeProxy
 	objs []*obj
 	log  string
@@ -102,6 +103,32 @@ func (x *world) call(o *obj, arg int32) {
 		vrt.Failf("live-object-refuses", "echo on a live object failed after [%s]: %v", x.log, err)
 	case !o.removed && v != probe.EchoResult(arg):
 		vrt.Failf("wrong-result", "echo(%d) returned %d", arg, v)
+	}
+}
+
+// call2: the same call through a second connection.
+func (x *world) call2(o *obj, arg int32) {
+	if x.c2 == nil {
+		x.c2 = x.w.MustConnect()
+	}
+	o = x.target(o)
+	before := o.impl.Total()
+	// a plain call (action 100 = echo): building a proxy would ask the
+	// object for its meta-object first
+	var v int32
+	res, err := x.c2.Client.Call(nil, x.w.ServiceID, o.id, 100, fx.Int32(arg))
+	if err == nil {
+		v, err = fx.ReadInt32(res)
+	}
+	switch {
+	case o.removed && err == nil:
+		vrt.Failf("removed-object-answers", "echo through a second connection on a removed object succeeded (returned %d) after [%s]", v, x.log)
+	case o.removed && o.impl.Total() != before:
+		vrt.Failf("removed-object-invoked", "a call to a removed object through a second connection was answered with an error but ran the method, after [%s]", x.log)
+	case !o.removed && err != nil:
+		vrt.Failf("live-object-refuses", "echo through a second connection on a live object failed after [%s]: %v", x.log, err)
+	case !o.removed && v != probe.EchoResult(arg):
+		vrt.Failf("wrong-result", "echo(%d) through a second connection returned %d", arg, v)
 	}
 }
 
@@ -199,7 +226,9 @@ func start() *world {
 	return &world{w: w, c: c, root: c.Probe(1)}
 }
 
-var opNames = []string{"add", "remove", "terminate", "call", "subscribe"}
+var opNames = []string{"add", "remove", "terminate", "call", "subscribe", "call2"}
+
+var modeNames = []string{"plain", "statistics", "tracing"}
 
 // histories: all operation sequences of length <= n over two pre-created
 // objects and the objects added on the way; every step runs to quiescence.
@@ -211,6 +240,24 @@ func histories(n int) func() {
 		if len(x.objs) != 2 {
 			return
 		}
+		// the optional statistics / tracing of an object wrap the channel of
+		// every incoming message: the two pre-created objects run in one of
+		// the three modes
+		mode := vrt.ChooseFree(len(modeNames), "object-mode")
+		for _, o := range x.objs {
+			var err error
+			switch mode {
+			case 1:
+				err = o.proxy.EnableStats(true)
+			case 2:
+				err = o.proxy.EnableTrace(true)
+			}
+			if err != nil {
+				vrt.Failf("harness/mode", "%s: %v", modeNames[mode], err)
+				return
+			}
+		}
+		x.log = modeNames[mode] + ":"
 		type step struct{ op, target int }
 		var steps []step
 		for i := 0; i < n; i++ {
@@ -240,6 +287,8 @@ func histories(n int) func() {
 				x.call(o, int32(10+len(x.log)))
 			case "subscribe":
 				x.subscribe(o)
+			case "call2":
+				x.call2(o, int32(40+len(x.log)))
 			}
 			vrt.Quiesce()
 			x.check()
